@@ -181,4 +181,255 @@ theorem C16_command_runs_only_live (n : Net) (op : Op) (y : Nat) (b a : Node)
         rw [hb1] at ha; cases ha; exact (hne hk1).elim
 
 
+/-! ### sessions appear only through a valid login -/
+
+/-- what `_login` demands: node ON, both managers RUNNING, an existing enabled account and its current password -/
+structure AuthOK (nd : Node) (u p : String) : Prop where
+  on : nd.power = .on
+  usm : nd.usm.st = .running
+  um : nd.um.st = .running
+  user : ∃ w, nd.findUser u = some w ∧ w.disabled = false ∧ w.password = p
+
+theorem findUser_some {nd : Node} {u : String} {w : User} (h : nd.findUser u = some w) : w ∈ nd.users ∧ w.name = u := by
+  unfold Node.findUser at h
+  exact ⟨List.mem_of_find?_eq_some h, by simpa using List.find?_some h⟩
+
+theorem loginOk_iff (nd : Node) (u p : String) : nd.loginOk u p = true ↔ AuthOK nd u p := by
+  unfold Node.loginOk Node.authenticate Node.canUsm Node.canUm Node.isOn Service.running
+  constructor
+  · intro h
+    simp only [Bool.and_eq_true, beq_iff_eq] at h
+    obtain ⟨⟨h1, h2⟩, ⟨_, h3⟩, h4⟩ := h
+    refine ⟨h1, h2, h3, ?_⟩
+    cases hf : nd.findUser u with
+    | none => simp [hf] at h4
+    | some w =>
+      simp only [hf, Bool.and_eq_true, Bool.not_eq_true', beq_iff_eq] at h4
+      exact ⟨w, rfl, h4.1, h4.2⟩
+  · rintro ⟨h1, h2, h3, w, hw, hd, hp⟩
+    simp [h1, h2, h3, hw, hd, hp]
+
+/-- remote session ids only shrink -/
+def RemShrink : Nat → Node → Node → Prop := fun _ a b => (b.rem.map (·.id)).Sublist (a.rem.map (·.id))
+
+theorem remShrink_frame : Frame RemShrink :=
+  { refl := fun _ _ => List.Sublist.refl _, trans := fun _ _ _ _ h1 h2 => List.Sublist.trans h2 h1,
+    shr := fun _ _ _ h => h.rem.map _, data := fun _ _ _ h => by unfold RemShrink; rw [data_rem h]; exact List.Sublist.refl _ }
+
+theorem touch_ids (b : Node) (cid t : Nat) : (b.touch cid t).rem.map (·.id) = b.rem.map (·.id) := by
+  unfold Node.touch
+  simp only [List.map_map]
+  apply List.map_congr_left
+  intro s _
+  simp only [Function.comp]
+  split <;> rfl
+
+theorem remoteExec_ids (b : Node) (cid t k : Nat) : (b.remoteExec cid t k).rem.map (·.id) = b.rem.map (·.id) := by
+  unfold Node.remoteExec Node.exec
+  split
+  · exact touch_ids b cid t
+  · exact touch_ids b cid t
+
+theorem localExec_rem (b : Node) (k : Nat) : (b.localExec k).rem = b.rem := by
+  unfold Node.localExec Node.exec
+  split
+  · split <;> rfl
+  · rfl
+
+/-- every operation other than a remote login towards `y` leaves the set of remote session ids of `y` inside the old one -/
+theorem step_remShrink (n : Net) (op : Op) (hop : ∀ x y u p, op ≠ .remoteLogin x y u p) :
+    Net.Rel RemShrink n (step n op).1 := by
+  have F := remShrink_frame
+  have r : ∀ j (a : Node), RemShrink j a a := F.refl
+  cases op with
+  | addUser y' u p adm => exact F.toPre.addUser n y' u p adm (fun a _ => r y' a)
+  | disableUser y' u => exact F.toPre.disableUser n y' u (fun a => r y' a)
+  | changePassword y' u o nw => exact F.changePassword n y' u o nw (fun a => r y' a)
+  | localLogin y' u p => simp only [step]; rw [opLocalLogin_fst]; exact F.toPre.localLogin n y' u p (fun a _ => r y' a)
+  | localCmd y' u p k =>
+    exact F.toPre.localCmd n y' u p k (fun a _ => r y' a) (fun a _ => r y' a)
+      (fun a => by unfold RemShrink; rw [localExec_rem]; exact List.Sublist.refl _)
+  | remoteCmd x y' k =>
+    exact F.remoteCmd n x y' k (fun a cid t => by unfold RemShrink; rw [remoteExec_ids]; exact List.Sublist.refl _)
+  | remoteLogin x y' u p => exact absurd rfl (hop x y' u p)
+  | localLogout y' => exact F.quiet n _ trivial
+  | remoteLogoff x y' => exact F.quiet n _ trivial
+  | svc y' w v => exact F.quiet n _ trivial
+  | shutdown y' => exact F.quiet n _ trivial
+  | startup y' => exact F.quiet n _ trivial
+  | reset y' => exact F.quiet n _ trivial
+  | tick => exact F.quiet n _ trivial
+
+theorem isRemoteLogin_or (op : Op) :
+    (∀ x y u p, op ≠ .remoteLogin x y u p) ∨ ∃ x y u p, op = .remoteLogin x y u p := by
+  cases op <;> simp
+
+theorem addConn_rem (c : Conn) (b : Node) : (b.addConn c).rem = b.rem := rfl
+
+/-- **C16, logins (remote), "only if".** If after any operation node `y` holds a remote session whose id it did not hold
+before, then the operation was a remote login towards `y` from a powered-on node `x` over an open path, with the current
+password of an existing, enabled account of `y`, `y` ON with both managers RUNNING, and fewer than `max_remote_sessions`
+sessions open before; the new session is that login's, its id is the fresh one, and nothing else was added. -/
+theorem C16_remote_session_only_by_valid_login (n : Net) (op : Op) (y : Nat) (b a : Node)
+    (hb : n.node y = some b) (ha : (step n op).1.node y = some a) (s : RSession) (hs : s ∈ a.rem)
+    (hnew : s.id ∉ b.rem.map (·.id)) :
+    ∃ x u p, op = .remoteLogin x y u p ∧ AuthOK b u p ∧ b.rem.length < b.maxRemote ∧ canDeliver n x y = true ∧
+      (∃ c, n.node x = some c ∧ c.isOn = true) ∧ s = ⟨n.nextId, u, n.time, x⟩ ∧ a.rem = b.rem ++ [s] := by
+  rcases isRemoteLogin_or op with hop | ⟨x, y', u, p, rfl⟩
+  · obtain ⟨a', ha', hsub⟩ := (step_remShrink n op hop).node y b hb
+    rw [ha] at ha'; cases ha'
+    exact (hnew (hsub.subset (List.mem_map_of_mem hs))).elim
+  · simp only [step] at ha
+    rcases opRemoteLogin_cases n x y' u p with ⟨h0, _⟩ | ⟨c, b', hc, hcon, hdel, hb', hok, hlt, h0⟩
+    · rw [h0, hb] at ha; cases ha; exact (hnew (List.mem_map_of_mem hs)).elim
+    · have hrem : a.rem = if y' = y then b.rem ++ [⟨n.nextId, u, n.time, x⟩] else b.rem := by
+        rcases h0 with ⟨h0, _⟩ | ⟨h0, _⟩ <;> rw [h0] at ha
+        · simp only [afterLogin, node_bump, node_upd] at ha
+          split at ha
+          · rename_i h; subst h; rw [hb] at ha; simp only [Option.map_some, Option.some.injEq] at ha
+            subst ha; simp [Node.addConn, Node.addSession]
+          · rename_i h; rw [hb] at ha; cases ha; simp [h]
+        · simp only [afterLogin, node_bump, node_upd] at ha
+          by_cases h : y' = y
+          · subst h
+            simp only [if_true, hb, Option.map_some] at ha
+            split at ha
+            · simp only [Option.some.injEq] at ha; subst ha; simp [Node.addConn, Node.addSession]
+            · simp only [Option.some.injEq] at ha; subst ha; simp [Node.addConn, Node.addSession]
+          · simp only [h, if_false, hb] at ha
+            split at ha
+            · simp only [Option.map_some, Option.some.injEq] at ha; subst ha; simp [Node.addConn, h]
+            · simp only [Option.some.injEq] at ha; subst ha; simp [h]
+      by_cases h : y' = y
+      · subst h
+        rw [hb] at hb'; cases hb'
+        simp only [if_true] at hrem
+        rw [hrem, List.mem_append, List.mem_singleton] at hs
+        rcases hs with hs | hs
+        · exact (hnew (List.mem_map_of_mem hs)).elim
+        · subst hs
+          exact ⟨x, u, p, rfl, (loginOk_iff _ _ _).mp hok, hlt, hdel, ⟨c, hc, hcon⟩, rfl, hrem⟩
+      · simp only [h, if_false] at hrem
+        rw [hrem] at hs
+        exact (hnew (List.mem_map_of_mem hs)).elim
+
+
+/-! ### ids are fresh: an ended session never becomes valid again -/
+
+theorem Net.Rel.nextId_of_shr {n m : Net} (h : n.Shr m) : m.nextId = n.nextId := h.nextId
+
+theorem tick_nextId (n : Net) : (tick n).nextId = n.nextId := by
+  unfold tick
+  exact (shr_foldl preTimestepNode shr_preTimestepNode _ _).nextId
+
+theorem localLogin_nextId (n : Net) (y : Nat) (u p : String) : n.nextId ≤ (localLogin n y u p).1.nextId := by
+  rcases localLogin_cases n y u p with h | ⟨nd, _, _, h⟩ <;> rw [h]
+  · exact Nat.le_refl _
+  · simp only [bump_nextId]; split <;> omega
+
+/-- the id counter never goes back -/
+theorem step_nextId_mono (n : Net) (op : Op) : n.nextId ≤ (step n op).1.nextId := by
+  cases op with
+  | addUser y u p adm => rcases opAddUser_cases n y u p adm with h | ⟨_, _, _, _, _, h⟩ <;> simp [step, h]
+  | disableUser y u => rcases opDisableUser_cases n y u with h | ⟨_, _, _, _, _, _, _, _, h⟩ <;> simp [step, h]
+  | changePassword y u o nw =>
+    rcases opChangePassword_cases n y u o nw with ⟨h, _⟩ | ⟨_, _, _, _, _, _, _, h, _⟩ <;> simp only [step, h]
+    · exact Nat.le_refl _
+    · rw [(shr_logoutUser _ _ _).nextId]; exact Nat.le_refl _
+  | localLogin y u p => simp only [step]; rw [opLocalLogin_fst]; exact localLogin_nextId n y u p
+  | localLogout y => rcases opLocalLogout_cases n y with h | h <;> simp [step, h]
+  | localCmd y u p k =>
+    rcases opLocalCmd_cases n y u p k with h | ⟨_, _, _, ⟨_, h⟩ | ⟨_, _, h⟩⟩ <;> simp only [step, h, upd_nextId]
+    · exact Nat.le_refl _
+    · exact localLogin_nextId n y u p
+    · exact localLogin_nextId n y u p
+  | remoteLogin x y u p =>
+    rcases opRemoteLogin_cases n x y u p with ⟨h, _⟩ | ⟨_, _, _, _, _, _, _, _, ⟨h, _⟩ | ⟨h, _⟩⟩ <;>
+      simp [step, h, afterLogin]
+  | remoteCmd x y k =>
+    rcases opRemoteCmd_cases n x y k with ⟨h, _⟩ | ⟨_, _, _, _, ⟨_, _, h⟩ | ⟨_, h, _⟩⟩ <;> simp only [step, h, upd_nextId]
+    · exact Nat.le_refl _
+    · exact Nat.le_refl _
+    · rw [(shr_disconnect _ _ _ _).nextId]; exact Nat.le_refl _
+  | remoteLogoff x y =>
+    rcases opRemoteLogoff_cases n x y with h | ⟨_, _, _, _, _, h, _⟩ <;> simp only [step, h]
+    · exact Nat.le_refl _
+    · rw [(shr_disconnect _ _ _ _).nextId]; exact Nat.le_refl _
+  | svc y w v => rcases opSvc_cases n y w v with h | ⟨_, _, h⟩ <;> simp [step, h]
+  | shutdown y => rcases opShutdown_cases n y with h | ⟨_, _, h⟩ <;> simp [step, h]
+  | startup y => rcases opStartup_cases n y with h | ⟨_, _, h⟩ <;> simp [step, h]
+  | reset y => rcases opReset_cases n y with h | ⟨_, _, h⟩ <;> simp [step, h]
+  | tick => simp only [step, tick_nextId]; exact Nat.le_refl _
+
+/-- nodes are never created or destroyed -/
+theorem step_node_some (n : Net) (op : Op) (y : Nat) (b : Node) (hb : n.node y = some b) :
+    ∃ a, (step n op).1.node y = some a := by
+  rcases isRemoteLogin_or op with hop | ⟨x, y', u, p, rfl⟩
+  · obtain ⟨a, ha, _⟩ := (step_remShrink n op hop).node y b hb; exact ⟨a, ha⟩
+  · have F : Pre (fun (_ : Nat) (_ _ : Node) => True) := ⟨fun _ _ => trivial, fun _ _ _ _ _ _ => trivial⟩
+    obtain ⟨a, ha, _⟩ := (F.remoteLogin n x y' u p (fun _ _ => trivial) (fun _ _ _ => trivial)).node y b hb
+    exact ⟨a, ha⟩
+
+theorem hasSession_iff (b : Node) (cid : Nat) : b.hasSession cid = true ↔ cid ∈ b.rem.map (·.id) := by
+  unfold Node.hasSession
+  simp only [List.any_eq_true, beq_iff_eq, List.mem_map]
+
+/-- one step: an id below the counter that is not a session of `y` is not a session of `y` afterwards -/
+theorem step_dead_stays_dead (n : Net) (op : Op) (y cid : Nat) (b a : Node) (hlt : cid < n.nextId)
+    (hb : n.node y = some b) (hdead : b.hasSession cid = false) (ha : (step n op).1.node y = some a) :
+    a.hasSession cid = false := by
+  cases h : a.hasSession cid with
+  | false => rfl
+  | true =>
+    obtain ⟨s, hs, hid⟩ := List.mem_map.mp ((hasSession_iff a cid).mp h)
+    have hnew : s.id ∉ b.rem.map (·.id) := by
+      rw [hid]; intro hm; rw [(hasSession_iff b cid).mpr hm] at hdead; cases hdead
+    obtain ⟨x, u, p, _, _, _, _, _, hs', _⟩ := C16_remote_session_only_by_valid_login n op y b a hb ha s hs hnew
+    rw [hs'] at hid; simp only at hid; omega
+
+/-- **C16, ended stays ended.** Session ids are fresh: once an id that has already been handed out (`cid < nextId`) is
+not (or no longer — after logoff, time-out or password change) a remote session of node `y`, it is never a remote session
+of `y` again, whatever operations follow. -/
+theorem C16_ended_stays_ended (ops : List Op) (n : Net) (y cid : Nat) (b : Node) (hlt : cid < n.nextId)
+    (hb : n.node y = some b) (hdead : b.hasSession cid = false) :
+    ∃ a, (run n ops).node y = some a ∧ a.hasSession cid = false ∧ cid < (run n ops).nextId := by
+  induction ops generalizing n b with
+  | nil => exact ⟨b, hb, hdead, hlt⟩
+  | cons op ops ih =>
+    obtain ⟨a, ha⟩ := step_node_some n op y b hb
+    exact ih (step n op).1 a (Nat.lt_of_lt_of_le hlt (step_nextId_mono n op)) ha
+      (step_dead_stays_dead n op y cid b a hlt hb hdead ha)
+
+/-- ... and a remote command sent on a connection carrying such an id changes nothing on `y` and is answered `failure`,
+at any later time. -/
+theorem C16_command_on_ended_session_changes_nothing (ops : List Op) (n : Net) (y cid : Nat) (b : Node)
+    (hlt : cid < n.nextId) (hb : n.node y = some b) (hdead : b.hasSession cid = false)
+    (x k : Nat) (a : Node) (c : Conn) (hx : (run n ops).node x = some a)
+    (hc : a.conns.find? (fun c => c.peer == some y) = some c) (hcid : c.id = cid) :
+    ∀ b1 b2, (run n ops).node y = some b1 → (step (run n ops) (.remoteCmd x y k)).1.node y = some b2 →
+      b2.files = b1.files ∧ (step (run n ops) (.remoteCmd x y k)).2 ≠ .success := by
+  intro b1 b2 h1 h2
+  obtain ⟨b1', h1', hd, _⟩ := C16_ended_stays_ended ops n y cid b hlt hb hdead
+  rw [h1] at h1'; cases h1'
+  constructor
+  · cases hf : decide (b2.files = b1.files) with
+    | true => exact of_decide_eq_true hf
+    | false =>
+      have hne : b2.files ≠ b1.files := of_decide_eq_false hf
+      rcases C16_command_runs_only_live _ _ y b1 b2 h1 h2 hne with ⟨x', k', a', c', hop, arr, hs, _⟩ | ⟨_, _, _, hop, _⟩
+      · cases hop
+        have := arr.src; rw [hx] at this; cases this
+        have := arr.conn; rw [hc] at this; cases this
+        rw [hcid, hd] at hs; cases hs
+      · cases hop
+  · simp only [step]
+    rcases opRemoteCmd_cases (run n ops) x y k with ⟨_, h⟩ | ⟨a', b', c', arr, ⟨hs, _, _⟩ | ⟨_, _, h⟩⟩
+    · exact h
+    · have := arr.src; rw [hx] at this; cases this
+      have := arr.conn; rw [hc] at this; cases this
+      have := arr.dst; rw [h1] at this; cases this
+      rw [hcid, hd] at hs; cases hs
+    · rw [h]; simp
+
+
 end Primaite.Session
